@@ -59,6 +59,20 @@ def corpus_groups(mode):
     return out
 
 
+def rtype_groups(tier, rng):
+    """result types T whose Option<T> is niche-optimised (no all-zero None): bool, char, Ordering, Duration; always with
+    panicking calls (their slots must stay None), also on a reused / pre-filled vector"""
+    quick = tier == "quick"
+    out = []
+    for rt in ("bool", "char", "ord", "dur"):
+        for scr, vec in (([2, 1], "fresh"), ([1, 3], "clear"), ([2], "pre3.4")):
+            calls = [(b + 1, i) for b, n in enumerate(scr) for i in range(n + 1)]
+            pan = sorted(set([rng.choice(calls), rng.choice(calls), (len(scr), 0)]))
+            s = "script=%s panics=%s rtype=%s vec=%s" % (",".join(map(str, scr)), ",".join("%d.%d" % c for c in pan), rt, vec)
+            out.append(f"{s} sched=random seed={rng.randrange(1 << 30)} iters={12 if quick else 300}")
+    return out
+
+
 def state_groups(tier, rng):
     """the whole captured state of the task closure is one over-aligned value (16 / 64) with a position-dependent
     pattern, or three words (control): the offset of the closure inside the task block depends on its alignment"""
@@ -129,6 +143,7 @@ def groups(tier, rng):
     gs += vec_groups(tier, rng)
     gs += state_groups(tier, rng)
     gs += failspawn_groups(tier, rng)
+    gs += rtype_groups(tier, rng)
     # bounded DFS (exhaustive for the smallest cases)
     gs.append("script=1 panics= sched=dfs seed=0 iters=100000 spur=2")
     gs.append("script=1 panics=1.1 sched=dfs seed=0 iters=100000 spur=1")
@@ -212,7 +227,7 @@ def streams(mode, tier, rng):
                 model_input=lambda c, i: c + "\t" + i,
                 impl_runner=_runner(gs), impl_timeout=170 if tier == "quick" else 1500,
                 describe="verbatim pool.rs on shuttle; each distinct schedule trace replayed through the extracted step")
-    vg = vec_groups(tier, rng) + state_groups(tier, rng)
+    vg = vec_groups(tier, rng) + state_groups(tier, rng) + rtype_groups(tier, rng)
     st2 = Stream("trace-replay-layout-release", mode, list(vg),
                  compare=lambda i, m: m == "accept" and "!" not in i and not i.startswith("crash"),
                  nontrivial=_nontrivial, model_input=lambda c, i: c + "\t" + i, release=True,
@@ -289,7 +304,7 @@ def _fmt_group(scr, pan, bombs, d):
     out = ["script=" + ",".join(map(str, scr)), "panics=" + ",".join("%d.%d" % c for c in pan)]
     if bombs:
         out.append("bombs=" + ",".join("%d.%d" % c for c in bombs))
-    for k in ("vec", "state", "failspawn", "sched", "seed", "iters", "spur"):
+    for k in ("vec", "state", "rtype", "failspawn", "sched", "seed", "iters", "spur"):
         if k in d:
             out.append(f"{k}={d[k]}")
     return " ".join(out)
